@@ -15,6 +15,26 @@ use routee_compass::app::compass::compass_app::CompassApp;
 use serde_json::{json, Value};
 use std::collections::HashMap;
 
+/// the runner reports unparsable query lines (and error responses) through the `log` facade only: a counting logger
+/// makes that step observable
+struct CountingLogger {}
+static PARSE_REPORTS: std::sync::atomic::AtomicUsize = std::sync::atomic::AtomicUsize::new(0);
+static LOGGER: CountingLogger = CountingLogger {};
+impl log::Log for CountingLogger {
+    fn enabled(&self, m: &log::Metadata) -> bool {
+        m.level() <= log::Level::Error
+    }
+    fn log(&self, r: &log::Record) {
+        // a parse report carries the JSON parser's message ("... at line 1 column 9"); error responses of queries carry
+        // search / plugin messages
+        let msg = format!("{}", r.args());
+        if r.level() == log::Level::Error && r.target().contains("cli") && msg.contains(" at line ") && msg.contains(" column ") {
+            PARSE_REPORTS.fetch_add(1, std::sync::atomic::Ordering::SeqCst);
+        }
+    }
+    fn flush(&self) {}
+}
+
 fn gen_cli(r: &mut StdRng, sorted_only: bool) -> Value {
     let mut net = gen_scenario(r, &GenOpts { max_v: 7, focus: String::from("c06") });
     let nv = net["nv"].as_u64().unwrap() as i64;
@@ -211,7 +231,9 @@ fn run_cli_scenario(out: &mut Out, scn: &Value, tag: usize) {
                          "fmt": fmt, "shape": scn["shape"], "sorted": scn["sorted"],
                          "lines": lines.iter().map(|l| if l["kind"] == "q" { json!({"kind": "q", "qid": l["qid"]}) } else { json!({"kind": "bad", "qid": 0}) }).collect::<Vec<_>>(),
                          "pre_exists": pre_exists, "pre_headers": pre_headers, "pre_recs": before.len() - pre_headers}));
+        PARSE_REPORTS.store(0, std::sync::atomic::Ordering::SeqCst);
         let r = command_line_runner(&args, None, None);
+        let reported = PARSE_REPORTS.load(std::sync::atomic::Ordering::SeqCst);
         let after = read_lines(&outfile);
         let pre_kept = after.len() >= before.len() && after[..before.len()] == before[..];
         let header: Vec<String> = if fmt == "csv" && !after.is_empty() { after[0].split(',').map(|s| s.to_string()).collect() } else { vec![] };
@@ -257,11 +279,12 @@ fn run_cli_scenario(out: &mut Out, scn: &Value, tag: usize) {
             }
         }
         out.event(json!({"ev": "CliReturned", "ok": r.is_ok(), "msg": r.err().map(|e| e.to_string()).unwrap_or_default()}));
-        out.event(json!({"ev": "CliEnd", "exists": outfile.exists(), "headers": headers, "nrecs": nrecs, "pre_kept": pre_kept}));
+        out.event(json!({"ev": "CliEnd", "exists": outfile.exists(), "headers": headers, "nrecs": nrecs, "pre_kept": pre_kept, "reported": reported}));
     }
 }
 
 pub fn main(args: &[String]) -> i32 {
+    let _ = log::set_logger(&LOGGER).map(|()| log::set_max_level(log::LevelFilter::Error));
     let mut out = Out::new();
     if has_flag(args, "--scenarios") {
         for (i, s) in read_scenarios().iter().enumerate() {
